@@ -7,11 +7,11 @@ RichSetup == {<<"ret">>, <<"reg","ret">>, <<"fail","ret">>, <<"reg","reg","ret">
 RichBody  == {<<"ret">>, <<"reg","ret">>, <<"fail","ret">>, <<"reg","reg","ret">>, <<"reg","fail","ret">>,
               <<"fail","reg","ret">>, <<"failnow">>, <<"panic">>, <<"reg","failnow">>, <<"reg","panic">>,
               <<"reg","reg","panic">>, <<"reg","reg","failnow">>, <<"fail","panic">>}
-RichCleanup == {<<"ret">>, <<"fail","ret">>, <<"failnow">>, <<"panic">>}
+RichCleanup == {<<"ret">>, <<"fail","ret">>, <<"failnow">>, <<"panic">>, <<"regn","ret">>}
 \* reduced sets for several iterations on the same worker (Reset / clean start) and components
 SmallSetup == {<<"ret">>, <<"reg","ret">>, <<"failnow">>, <<"reg","panic">>}
 SmallBody  == {<<"ret">>, <<"reg","ret">>, <<"fail","ret">>, <<"failnow">>, <<"panic">>, <<"reg","failnow">>, <<"reg","reg","panic">>}
-SmallCleanup == {<<"ret">>, <<"fail","ret">>, <<"panic">>}
+SmallCleanup == {<<"ret">>, <<"fail","ret">>, <<"panic">>, <<"regn","ret">>}
 TinySetup == {<<"ret">>, <<"reg","ret">>, <<"fail","ret">>, <<"panic">>}
 TinyBody  == {<<"ret">>, <<"reg","ret">>, <<"fail","ret">>, <<"failnow">>, <<"reg","panic">>}
 TinyCleanup == {<<"ret">>, <<"failnow">>}
